@@ -16,12 +16,14 @@ claimed = {
  "C06": ("Relational harness: CheckTx on a CheckState then DeliverTx on the same symbolic state; verdicts must agree and CheckTx must not mutate.", "§4 C06", ""),
  "C07": ("Every feasible panic path of every transaction/block harness is a violation, replayed natively before being reported.", "§4 C07", "Byte-level decoder layer is covered only as far as listed in evidence."),
  "C09": ("Persist-then-reload step for the app DB: genesis block plus one block, with or without a restart, symbolic emission/price; a fresh instance over the same store must answer every getter like the continuing one.", "§4 C09", "State-module stores are covered only as listed in evidence."),
+ "C12": ("Formula layer of the four bancor functions executed symbolically with big.Float over exact reals and math.Pow as a constrained uninterpreted function: results non-negative, sale return <= reserve, zero in -> zero out, selling the whole supply returns the reserve, crr=100 branches equal the exact integer formulas, and the exponent passed to Pow is the bonding-curve exponent.", "§4 C12", "PARTIAL: the numerical accuracy of math/pow.go, exp.go, log.go and the 100-bit rounding (bounded relative error, monotonicity under rounding, buy-then-sell) is outside; it cannot be encoded within reach of the solvers."),
  "C13": ("Bounded symbolic execution of the real swapV2.go kernels from an arbitrary symbolic pool; assertions are SMT queries over unbounded integers.", "§4 C13", "Shape bound: one pool, one operation (inductive step)."),
  "C16": ("BeginBlock maturity loop from symbolic frozen funds (plain unbond, pending move, later heights, other candidate) with and without byzantine evidence: matured unbonds reach the owner's balance, moves reach the target candidate and never the balance, nothing at other heights is released.", "§4 C16", "Transaction-side period/target gates (Unbond, MoveStake, Lock, LockStake Run) are covered only as listed in evidence."),
  "C18": ("BeginBlock byzantine branch over symbolic stakes and unbonding funds: every stake and every fund in the unbond window loses v - floor(95v/100), the rest is frozen for one unbond period, the validator is dropped, total-slashed grows by the sum; other candidates' funds untouched.", "§4 C18", "Absence window / jail harnesses are covered only as listed in evidence."),
  "C19": ("EndBlock accumulation over every present/absent/missing status pattern and symbolic stakes, reward, fees: present validators accrue floor(pot*stake/total), others nothing, accrued + remainder = pot; payout block: paid never exceeds accrued.", "§4 C19", "Locked-stake (x3) bonus branch of PayRewardsV5Fix is outside the registered bound."),
  "C20": ("isApplicationHalted / isUpdateCommissionsBlockV2 / isUpdateNetworkBlockV2 over symbolic validator stakes and every vote pattern against the integer predicate 3*voted > 2*total.", "§4 C20", "big.Float over exact reals in the quick tier; counterexamples are replayed natively with real big.Float."),
  "C28": ("EndBlock emission bookkeeping: below the cap emission grows by exactly the safe reward and the part validators do not get is credited to the zero address; at the cap nothing is minted.", "§4 C28", "Reward update window of BeginBlock and UpdatePriceFix are covered only as listed in evidence."),
+ "C22": ("Symbolic RunTx of MintToken for the token, the bancor coin and a pool token, by the ticker owner or another account: accepted only for the owner of a mintable token, within max supply, by exactly the value; pool tokens (owner nil) are not mintable by a transaction.", "§4 C22", "PARTIAL: create/recreate/edit-owner/id-assignment harnesses are covered only as listed in evidence."),
  "C26": ("Two-delivery harness on RunTx: the same signed bytes delivered twice; the second delivery must be rejected and change no balance of the payer nor the reward pool, whatever the first returned.", "§4 C26", "Send transactions paid in the base coin; the failed-first-delivery case is a recorded open finding (F4)."),
  "C27": ("Fee reaching the reward pool equals gasPrice x price-table entry (symbolic price table), per transaction type covered.", "§4 C27", ""),
 }
@@ -31,7 +33,7 @@ not_applicable = {
  "C29": "state sync: every component on the path (zlib, protobuf, cosmos-sdk snapshot store, IAVL exporter/importer, a goroutine) would be a stub, leaving no repository logic under the solver (DESIGN.md §5)",
 }
 pending = {k: "not claimed yet in this revision: harnesses under construction (see DESIGN.md); no check is registered, so nothing is asserted about it" for k in
-           ["C08","C10","C11","C12","C14","C15","C17","C21","C22","C23","C24"]}
+           ["C08","C10","C11","C14","C15","C17","C21","C23","C24"]}
 
 def main():
     checks = []
